@@ -40,6 +40,7 @@ type Ctx struct {
 
 	Verif string
 	Tier  string
+	allFns map[*ssa.Function]bool
 }
 
 type Edge struct {
@@ -626,4 +627,12 @@ func callsOf(f *ssa.Function) []ssa.CallInstruction {
 		}
 	}
 	return out
+}
+
+// allFunctions: every function of the program (module and dependencies).
+func (c *Ctx) allFunctions() map[*ssa.Function]bool {
+	if c.allFns == nil {
+		c.allFns = ssautil.AllFunctions(c.Prog)
+	}
+	return c.allFns
 }
